@@ -587,12 +587,12 @@ func extractXMLDataField(parsedFieldBytes *TagValue, buffer []byte, dataLen int)
 		remBytes = buffer
 		return
 	}
-	endIndex += dataLen + 1
-	if endIndex >= len(buffer) {
+	if dataLen >= len(buffer)-endIndex-1 {
 		err = parseError{OrigError: "extractXMLDataField: XMLDataLen exceeds the remaining message in " + string(buffer)}
 		remBytes = buffer
 		return
 	}
+	endIndex += dataLen + 1
 
 	err = parsedFieldBytes.parse(buffer[:endIndex+1])
 	return buffer[(endIndex + 1):], err
